@@ -31,7 +31,7 @@ RULES = {
 }
 PROBES = ["device_packets", "data_packets", "handshakes", "stalls", "naks", "answer_with_tx_stall", "after_bus_reset_answers",
           "address_changed", "token_not_for_device_silent", "lost_handshake_then_retry", "abandoned_control_transfer",
-          "duplicate_out", "multi_packet_control_in", "unknown_endpoint_token"]
+          "duplicate_out", "multi_packet_control_in", "unknown_endpoint_token", "stale_address_traffic_after_reset"]
 # extra counter (only reported when non-zero, it is not a reach probe): "answer_kind_does_not_fit_request"
 META = {
     "components_real": ["USBDevice", "USBControlEndpoint", "StandardRequestHandler + descriptor handler", "USBStreamInEndpoint",
@@ -43,7 +43,8 @@ META = {
                     "data packets, never transmits while the device transmits", "legal UTMI receive side",
                     "full speed only (no chirp: 'outside reset chirping' is satisfied by configuration)",
                     "'addressed to it' = token address equals the address shown on the endpoint interface (active_address) "
-                    "when the token ends",
+                    "when the token ends; from the end of a bus reset (SE0 >= 5 us) the address is 0 until the device shows a "
+                    "change after it",
                     "single-transmitter origin of a packet is checked only through its consequences on the wire (malformed / "
                     "overlapping output); the internal multiplexer inputs are not observed"],
     "rule": "12-40 host operations drawn from control / bulk_in / bulk_out / poll / sof / foreign / absent_ep / bus_reset / idle with "
@@ -167,6 +168,17 @@ def gen(rng, tier, index):
             op.update({"n": rng.randint(310, 420)})
         ops.append(op)
     cfg["idle_data"] = gen_idle_data(rng)
+    # address the device had before a bus reset, now owned by another device: SET_ADDRESS ... bus reset ... traffic to that address
+    if not fault_free and rng.random() < 0.2:
+        i = rng.randint(0, len(ops))
+        j = rng.randint(i, len(ops))
+        a = rng.choice([1, 5, 42, 127, rng.randint(1, 127)])
+        tail = [{"op": "bus_reset", "n": rng.randint(310, 420)}]
+        for _ in range(rng.randint(1, 3)):
+            tail.append({"op": "foreign", "kind": rng.choice(["in_ack", "in_ack", "out", "setup"]), "addr_delta": 1, "stale": True,
+                         "ep": rng.randint(0, 3), "data": bytes(rng.getrandbits(8) for _ in range(rng.choice([0, 3, 8]))).hex()})
+        ops[j:j] = tail
+        ops[i:i] = [{"op": "control", "setup": bytes([0, 5, a, 0, 0, 0, 0, 0]).hex(), "out": "", "lose": [], "naks": 4, "abandon": None}]
     return {"engine": ENGINE, "config": cfg, "ops": ops}
 
 
@@ -291,6 +303,8 @@ def run(scn):
                 yield from h.idle(op["n"])
                 h.set_pins(line_state=1)
                 resets.append(h.t)
+                if st["addr"]:
+                    st["stale"] = st["addr"]
                 st["addr"] = 0
                 yield from h.idle(10 * bit)
             elif k == "foreign":
@@ -298,6 +312,9 @@ def run(scn):
                 a = (st["addr"] + op["addr_delta"]) % 128
                 if a == st["addr"]:
                     a = (a + 1) % 128
+                if op.get("stale") and st.get("stale") and st["stale"] != st["addr"]:
+                    a = st["stale"]
+                    probes["stale_address_traffic_after_reset"] += 1
                 payload = bytes.fromhex(op["data"])
                 if op["kind"] == "in_ack":
                     yield from h.send(token_packet("IN", a, op["ep"]), info="foreign")
@@ -389,10 +406,13 @@ def run(scn):
 
     # ---- oracle: wire history only ------------------------------------------------------------------------------------
     def addr_at(t):
+        """ the device's address: what it shows on the endpoint interface, except that a bus reset returns it to 0 whatever the
+            device shows (only an address change shown after the end of the reset counts from then on) """
+        since = max([r for r in resets if r <= t], default=-1)
         a = 0
         for t0, v in streams.addr_log:
             if t0 <= t:
-                a = v
+                a = v if t0 > since else 0
             else:
                 break
         return a
